@@ -7,20 +7,17 @@
 package svcx
 
 import (
-	"database/sql"
 	"encoding/base64"
 	"encoding/json"
 	"fmt"
 	"net"
 	"net/http"
 	"os"
-	"reflect"
 	"runtime"
 	"strconv"
 	"strings"
 	"sync"
 	"time"
-	"unsafe"
 
 	"Havoc/cmd/server"
 	"Havoc/pkg/handlers"
@@ -63,7 +60,7 @@ type Fixture struct {
 // New builds the teamserver the way (*Teamserver).Start() does for the parts C16 needs
 // (teamserver.go:75-76 engine, :193-207 service block), and serves the engine.
 func New(withService bool) (*Fixture, error) {
-	dir, err := os.MkdirTemp("", "c16-")
+	dir, err := os.MkdirTemp(scratchBase(), "c16-")
 	if err != nil {
 		return nil, err
 	}
@@ -114,27 +111,27 @@ func (f *Fixture) Close() {
 		WaitGoroutines(HandleConnFrame, n-1)
 	}
 	Quiesce()
+	// one at a time: the serving goroutine of a closed listener reports the "error" through
+	// EventListenerError, which appends to the event list without any lock
 	for _, l := range f.TS.Listeners {
 		if h, ok := l.Config.(*handlers.HTTP); ok && h.Server != nil {
 			h.Server.Close()
+			Quiesce()
 		}
 	}
 	f.srv.Close()
 	Quiesce()
-	closeDB(f.TS)
+	tsx.CloseTS(f.TS)
 	os.RemoveAll(f.Dir)
 }
 
-func closeDB(ts *server.Teamserver) {
-	defer func() { recover() }()
-	v := reflect.ValueOf(ts.DB).Elem().FieldByName("db")
-	if !v.IsValid() {
-		return
+// scratchBase prefers a memory-backed directory (same rule as agx.ScratchBase: sqlite
+// fsyncs dominate the per-case cost on disk); "" means the default temp dir.
+func scratchBase() string {
+	if st, err := os.Stat("/dev/shm"); err == nil && st.IsDir() {
+		return "/dev/shm"
 	}
-	p := reflect.NewAt(v.Type(), unsafe.Pointer(v.UnsafeAddr())).Elem().Interface()
-	if d, ok := p.(*sql.DB); ok && d != nil {
-		d.Close()
-	}
+	return ""
 }
 
 // Operator feeds one operator package to the teamserver exactly as handleRequest does
@@ -191,8 +188,13 @@ func state(g string) string {
 
 // busy reports the first goroutine that has a Havoc frame (or was created by Havoc code)
 // and is not parked in a blocking operation.
+// LastDump is the goroutine dump the most recent busy() call judged (diagnostics only).
+var LastDump []string
+
 func busy() string {
-	for i, g := range Goroutines() {
+	gs := Goroutines()
+	LastDump = gs
+	for i, g := range gs {
 		// the first block is the calling goroutine (it may itself be unwinding a panic that
 		// came out of teamserver code, with fixture cleanup running in a deferred call)
 		if i == 0 || !strings.Contains(g, "Havoc/") {
